@@ -35,11 +35,24 @@ def run_checks():
 
 
 def needs_of(notes):
-    m = re.search(r"(?im)^\W*(?:\*\*)?(?:trigger|what (?:it|is) need[^\n:]*|needs?[^\n:]*to manifest[^\n:]*|manifest[^\n:]*)(?:\*\*)?\s*[:\-]\s*(.+)$", notes)
-    if m:
-        return m.group(1).strip()[:600]
-    paras = [p.strip() for p in notes.split("\n\n") if "trigger" in p.lower() or "manifest" in p.lower() or "only" in p.lower()]
-    return (paras[0][:600] if paras else "see notes.md")
+    lines = notes.splitlines()
+    for i, l in enumerate(lines):
+        if re.search(r"(?i)(need|trigger|manifest)", l) and (l.strip().startswith(("**", "#", "-")) or l.strip().endswith(":")):
+            head = re.sub(r"[*#]", "", l).strip()
+            tail = head.split(":", 1)[1].strip() if ":" in head else ""
+            body = [tail] if tail else []
+            for m in lines[i + 1:]:
+                if m.strip().startswith(("**", "#")) and body:
+                    break
+                if not m.strip():
+                    if body:
+                        break
+                    continue
+                body.append(re.sub(r"^\s*[-*]\s*", "", m).strip())
+            txt = " ".join(body)
+            if len(txt) > 20:
+                return txt[:700]
+    return "see notes.md"
 
 
 def main():
